@@ -168,6 +168,10 @@ class Stream(ModelMixin["Stream"], Base):
 
     def add_file(self, file_upload: FileStorage, commit: bool = False) -> MediaFile:
         filename = Path(secure_filename(file_upload.filename))
+        if not filename.stem or len(filename.name) > 200:
+            # nothing is left of a name such as "???" or ".."; the name of
+            # a file is limited to 255 bytes and a suffix may be added to it
+            raise ValueError(f'Invalid file name "{file_upload.filename[:80]}"')
         upload_folder = Path(flask.current_app.config['BLOB_FOLDER']) / self.directory
         logging.debug('upload_folder="%s"', upload_folder)
         if not upload_folder.exists():
